@@ -27,7 +27,33 @@ def sweep (p : Char → Bool) (lo hi : Nat) : List Nat :=
     let n := lo + k
     if n.isValidChar && p (Char.ofNat n) then some n else none
 
+/-- a question of a session: `{type: "choice", choices, multi, default|null, limit|null}` or
+`{type: "confirm", ci, prefixes, default}` -/
+def sq (j : Json) : R SQ := do
+  match (← fStr j "type") with
+  | "choice" =>
+    return .choice (← strs j "choices") (← fBool j "multi") (← fOptChars j "default") (← fOptNat j "limit")
+  | "confirm" => return .confirm (← fBool j "ci") (← strs j "prefixes") (← fBool j "default")
+  | _ => throw "question: unknown type"
+
+/-- a step of a session: `{op: "append"|"set", lines}`, `{op: "clear"}`, `{op: "ask", q}` -/
+def sstep (j : Json) : R SStep := do
+  match (← fStr j "op") with
+  | "append" => return .append (← strs j "lines")
+  | "set" => return .set (← strs j "lines")
+  | "clear" => return .clear
+  | "ask" => return .ask (← sq (← field j "q"))
+  | _ => throw "step: unknown op"
+
+def jSOut : SOut → Json
+  | .choice o => Json.mkObj [("result", jResult o.result), ("reads", jNat o.reads),
+                             ("errors", jNat o.errors), ("prompts", jNat o.prompts)]
+  | .confirm o => Json.mkObj [("result", jCResult o.result), ("reads", jNat o.reads),
+                              ("prompts", jNat o.prompts)]
+
 /--
+* `c18.session {initial, steps, eof, interactive}` -> `{asks: [...]}`: the outcomes of the questions
+  of a session on one input (`Question.session pyInt`), see `sstep`
 * `c18.ask {choices, multi, default|null, limit|null, script, eof, interactive}`
   -> `{result, reads, errors, prompts}` of `Question.ask pyInt …`, `prompt_ok` = `promptOkB`
 * `c18.interchange_hyp {choices, multi, i}` -> `{hyp, text}`: `interchangeHypB`, `str(i)`
@@ -54,6 +80,12 @@ def handle (m : String) (j : Json) : Option (R Json) :=
       return Json.mkObj [("result", jResult o.result), ("reads", jNat o.reads),
                          ("errors", jNat o.errors), ("prompts", jNat o.prompts),
                          ("prompt_ok", .bool (promptOkB pyInt choices multi default))]
+  | "c18.session" => some do
+      let initial ← strs j "initial"
+      let steps ← (← fArr j "steps").toList.mapM sstep
+      let eof ← fBool j "eof"
+      let interactive ← fBool j "interactive"
+      return Json.mkObj [("asks", jList jSOut (session pyInt interactive eof steps initial))]
   | "c18.interchange_hyp" => some do
       -- the side condition of the interchangeability theorems (Props.C18.hyps_decide, interchange_dec)
       -- and the index text `str(i)` they are stated for
